@@ -25,6 +25,18 @@ func NewLocation(f *fs.File, i bytes.Index) Location {
 		return loc
 	}
 	loc.Quote = quote(f.Content(), i)
+	if i == f.Content().LenIndex() {
+		// The position right after the last byte (errors raised at the end of the
+		// file): derive it from the position of the last byte.
+		loc.Line, loc.Column = f.Content().LineAndColumn(i - 1)
+		if f.Content().Byte(i-1) == f.Content().NewLineSymbol() {
+			loc.Line++
+			loc.Column = 1
+		} else {
+			loc.Column++
+		}
+		return loc
+	}
 	loc.Line, loc.Column = f.Content().LineAndColumn(i)
 	return loc
 }
